@@ -1509,25 +1509,25 @@ def uncovered():
 
 
 SUBCHECKS = [
-    SubCheck("expr_value", _expr_value_case(), oracle_expr_value, quick=2000, thorough=80000, shards_quick=4, shards_thorough=16,
+    SubCheck("expr_value", _expr_value_case(), oracle_expr_value, quick=2000, thorough=26666, shards_quick=4, shards_thorough=16,
              essential={"has_pow": 0.1, "chain=2": 0.01, "cycle": 0.003, "complex": 0.03}),
-    SubCheck("expr_funcs", _expr_value_case(funcs=True), oracle_expr_value, quick=200, thorough=30000, shards_quick=2,
+    SubCheck("expr_funcs", _expr_value_case(funcs=True), oracle_expr_value, quick=200, thorough=10000, shards_quick=2,
              shards_thorough=8, essential={"funcs": 0.2}),
-    SubCheck("expr_compose", _compose_case(), oracle_expr_compose, quick=1600, thorough=60000, shards_quick=4, shards_thorough=16,
+    SubCheck("expr_compose", _compose_case(), oracle_expr_compose, quick=1600, thorough=20000, shards_quick=4, shards_thorough=16,
              essential={"mode=nonrec": 0.1, "mode=chain": 0.1}),
-    SubCheck("gate_unitary", _gate_case(), oracle_gate_unitary, quick=2000, thorough=80000, shards_quick=4, shards_thorough=16),
-    SubCheck("gate_names", _gate_case(partial=True), oracle_gate_names, quick=1200, thorough=50000, shards_quick=4, shards_thorough=16,
+    SubCheck("gate_unitary", _gate_case(), oracle_gate_unitary, quick=2000, thorough=26666, shards_quick=4, shards_thorough=16),
+    SubCheck("gate_names", _gate_case(partial=True), oracle_gate_names, quick=1200, thorough=16666, shards_quick=4, shards_thorough=16,
              essential={"partial": 0.1}),
     SubCheck("cop_protocol", _gate_case(wraps=list(COP), families=[f for f in CG.sym_families() if f not in ("RandomGate", "Wait")]),
-             oracle_cop_protocol, quick=400, thorough=15000, shards_quick=4, shards_thorough=8),
-    SubCheck("circuit_resolve", _circuit_case(), oracle_circuit_resolve, quick=1000, thorough=40000, shards_quick=4, shards_thorough=16,
+             oracle_cop_protocol, quick=400, thorough=5000, shards_quick=4, shards_thorough=8),
+    SubCheck("circuit_resolve", _circuit_case(), oracle_circuit_resolve, quick=1000, thorough=13333, shards_quick=4, shards_thorough=16,
              essential={"only_last_op_of_a_moment_changes": 0.02}),
-    SubCheck("sweeps", _sweep_case(), oracle_sweeps, quick=2400, thorough=100000, shards_quick=4, shards_thorough=16,
+    SubCheck("sweeps", _sweep_case(), oracle_sweeps, quick=2400, thorough=33333, shards_quick=4, shards_thorough=16,
              essential={"has_ziplongest": 0.05, "empty": 0.03, "single": 0.05, "contract_reject": 0.02, "depth=2": 0.1}),
-    SubCheck("sweep_repr", _sweep_case(bad_rate=0), oracle_sweep_repr, quick=600, thorough=30000, shards_quick=2, shards_thorough=8),
-    SubCheck("sim_sweep", _sim_case(), oracle_sim_sweep, quick=600, thorough=20000, shards_quick=4, shards_thorough=16,
+    SubCheck("sweep_repr", _sweep_case(bad_rate=0), oracle_sweep_repr, quick=600, thorough=10000, shards_quick=2, shards_thorough=8),
+    SubCheck("sim_sweep", _sim_case(), oracle_sim_sweep, quick=600, thorough=6666, shards_quick=4, shards_thorough=16,
              essential={"ran": 0.3}),
-    SubCheck("flatten", _flatten_case(), oracle_flatten, quick=600, thorough=20000, shards_quick=4, shards_thorough=16,
+    SubCheck("flatten", _flatten_case(), oracle_flatten, quick=600, thorough=6666, shards_quick=4, shards_thorough=16,
              essential={"collision": 0.05}),
-    SubCheck("commute", _circuit_case(with_f=True), oracle_commute, quick=800, thorough=30000, shards_quick=4, shards_thorough=16),
+    SubCheck("commute", _circuit_case(with_f=True), oracle_commute, quick=800, thorough=10000, shards_quick=4, shards_thorough=16),
 ]
